@@ -242,13 +242,15 @@ struct Val {
             apply(*mv);
         }
     }
-    // Model of the one piece of history the code is known to keep (finding C09:stale-comparator-...): an object setter
-    // executed while NO default repository is installed leaves the comparator of an earlier object value in place.
-    bool stale_comparator_condition() const {
+    // OUT OF DOMAIN (maintainer's decision, see notes/C09.md "Observation (not judged)"): the judged value is an object set
+    // while NO default repository is installed and an earlier step of the history left a comparator or copier on the value
+    // object.  The object setters only touch comparator_/copier_ when a repository is installed, so the old ones stay; the
+    // statement says nothing about custom objects and mock() always installs its repository.  Such a pair is not judged.
+    bool object_without_repository_after_comparator() const {
         if (history.empty() || via_store || !(kind == K_OBJ || kind == K_COBJ) || repo_on) return false;
-        bool cmp = false;
-        for (auto& h : history) if ((h->kind == K_OBJ || h->kind == K_COBJ) && h->repo_on) cmp = h->has_cmp();
-        return cmp;
+        bool left = false;
+        for (auto& h : history) if ((h->kind == K_OBJ || h->kind == K_COBJ) && h->repo_on) left = (h->otype != 2);   // TypeA/D comparator, TypeA/B copier, TypeC nothing
+        return left;
     }
     std::string render_history() const {
         if (history.empty()) return "";
@@ -474,7 +476,6 @@ void getter_body(void* p) {
 std::string sig_getter(const char* what, int getter, int stored) { return sfmt("C09:getter-%s:%s:%s", what, GETTER[getter], KNAME[stored]); }
 const char* const KEY_LL_OF_UL = "C09:getter-wrong-number:getLongLongIntValue:unsigned-long-int";
 const char* const KEY_OPP_INF = "C09:doubles-opposite-infinities";
-const char* const KEY_STALE_CMP = "C09:stale-comparator-object-set-without-repository";
 
 // one getter call inside a private one-test fixture
 int check_getter(const MockNamedValue& mv, int stored, i128 value, int getter, bool count) {
@@ -501,11 +502,6 @@ int judge_equals(const Val& x, const Val& y, bool got, const char* dir) {
     int exp = expected(x, y, &why);
     if (exp < 0 || exp == (int)got) return 0;
     std::string sig;
-    if (x.stale_comparator_condition()) {   // known finding: accept the known answer for this one receiver
-        if (verif::known(KEY_STALE_CMP)) return 0;
-        return verif::fail(KEY_STALE_CMP, "%s: (%s%s).equals(%s) returned %s, a fresh value with the same content returns %s [history must not matter: an object set while no default repository is installed has no comparator]",
-                           dir, x.render().c_str(), x.render_history().c_str(), y.render().c_str(), got ? "true" : "false", exp ? "true" : "false");
-    }
     if (is_int(x.kind) && is_int(y.kind)) sig = sfmt("C09:integer-equals-wrong:%s:%s", KNAME[x.kind], KNAME[y.kind]);
     else if (x.tag() != y.tag()) sig = "C09:different-types-compare-equal";
     else if (x.kind == K_DBL) {
@@ -588,10 +584,17 @@ int run_pair(Reader& r, uint32_t mode, bool& nontrivial, std::string& desc) {
     }
     if (g_cmp_bad)
         return verif::fail("C09:comparator-called-with-non-object", "%s while comparing %s", g_cmp_bad_msg.c_str(), desc.c_str());
-    if (judge_equals(a, b, ab, "A.equals(B)")) return 1;
-    if (judge_equals(b, a, ba, "B.equals(A)")) return 1;
-    if (is_int(a.kind) && is_int(b.kind) && ab != ba)   // implied by the two judgements above; kept as the literal statement
-        return verif::fail("C09:integer-equals-asymmetric", "(%s).equals(%s)=%d but the reverse=%d", a.render().c_str(), b.render().c_str(), (int)ab, (int)ba);
+    if (a.object_without_repository_after_comparator() || b.object_without_repository_after_comparator()) {
+        // only the equals verdicts of this pair are skipped; the getter sweep of an integer operand below still runs
+        verif::cls("out-of-domain:object-set-without-repository-after-comparator");
+        static bool observed = false;
+        if (!observed) { observed = true; verif::observe("not judged (out of domain): pairs with an object that was set while no default repository is installed, on a value object that still carries the comparator/copier of an earlier object value (see class out-of-domain:object-set-without-repository-after-comparator; example: corpus/C09/c09_namedvalue/out-of-domain-object-set-without-repository-after-comparator.bin)"); }
+    } else {
+        if (judge_equals(a, b, ab, "A.equals(B)")) return 1;
+        if (judge_equals(b, a, ba, "B.equals(A)")) return 1;
+        if (is_int(a.kind) && is_int(b.kind) && ab != ba)   // implied by the two judgements above; kept as the literal statement
+            return verif::fail("C09:integer-equals-asymmetric", "(%s).equals(%s)=%d but the reverse=%d", a.render().c_str(), b.render().c_str(), (int)ab, (int)ba);
+    }
     // getter sweep: every integer operand through two different getters chosen by the input, each call in its own fixture
     // (a fixture costs ~60 us; all 36 stored-type x getter combinations over the whole lattice are enumerated by the blocks)
     const Val* ops[2] = {&a, &b};
@@ -655,17 +658,6 @@ extern "C" int verif_known_repro(const char* key) {
     if (k == KEY_OPP_INF) {
         MockNamedValue a("p"), b("p"); a.setValue((double)INFINITY, 0.005); b.setValue(-(double)INFINITY, 0.005);
         return (a.equals(b) || b.equals(a)) ? 1 : 0;
-    }
-    if (k == KEY_STALE_CMP) {
-        // TypeA object with the repository installed, then a TypeC object on the same value with no repository: a fresh
-        // TypeC value has no comparator (equals -> false); the recycled one still answers through TypeA's comparator
-        MockNamedValue v("p"), w("p");
-        MockNamedValue::setDefaultComparatorsAndCopiersRepository(g_repo);
-        v.setObjectPointer("TypeA", &g_pool[0]);
-        MockNamedValue::setDefaultComparatorsAndCopiersRepository(NULLPTR);
-        v.setObjectPointer("TypeC", &g_pool[0]);
-        w.setObjectPointer("TypeC", &g_pool[1]);
-        return v.equals(w) ? 1 : 0;
     }
     return -1;
 }
